@@ -49,7 +49,7 @@ Fixpoint uses (under_dup : bool) (e : sexp) : list (string * bool) :=
   end.
 
 Definition plugin_names : list string :=
-  ["IL_TRUE"; "IL_FALSE"; "pkt"; "hi"; "bundle";
+  ["IL_TRUE"; "IL_FALSE"; "true"; "false"; "pkt"; "hi"; "bundle";
    "HEX_REG_CLASS_INT_REGS"; "HEX_REG_CLASS_PRED_REGS"; "HEX_REG_CLASS_CTR_REGS"; "HEX_REG_CLASS_MOD_REGS";
    "HEX_REG_CLASS_DOUBLE_REGS"; "HEX_REG_CLASS_CTR_REGS64"; "HEX_REG_CLASS_HVX_VR"; "HEX_REG_CLASS_HVX_QR";
    "HEX_REG_CLASS_HVX_WR"; "HEX_REG_CLASS_GUEST_REGS"; "HEX_REG_CLASS_SYS_REGS"; "HEX_REG_CLASS_GUEST_REGS64";
